@@ -109,6 +109,9 @@ func vxBlock1(tag string, a1, a2, slotW, slotN *felt.Felt) core.StateDiff {
 	}
 	if vx.Bool(tag + "hasDeployed") {
 		diff.DeployedContracts[*a2] = vxFeltIn(tag + "deployedclass")
+		if vx.Bool(tag + "deployedNonce") { // a deploy-account transaction also bumps the new account's nonce
+			diff.Nonces[*a2] = vxFeltIn(tag + "nonceB")
+		}
 	}
 	return diff
 }
